@@ -100,6 +100,15 @@ impl Report {
         }
     }
     pub fn violate(&mut self, key: String, what: String, case: Value) {
+        let (key, what, case) = if crate::cli::debug_profile() {
+            let mut c = case;
+            if let Some(o) = c.as_object_mut() {
+                o.insert("profile".into(), Value::String("overflow-checked".into()));
+            }
+            (format!("[overflow-checked build] {key}"), format!("[overflow-checked (dev-profile) build of the same source] {what}"), c)
+        } else {
+            (key, what, case)
+        };
         // a vanished scratch file is the harness's problem (someone removed /dev/shm/skaverif.*), never a verdict
         if what.contains("Invalid path/file") && what.contains("skaverif.") {
             self.machinery(format!("scratch file vanished during the run: {}", what.chars().take(160).collect::<String>()));
